@@ -39,8 +39,10 @@ NamesOf(k, noise, i) ==
                   [] k = "tmpl"      -> <<N("U", i)>>      \* a template that is handed an argument (a foreign type) it never mentions
                   [] k = "group1"    -> <<N("GS", i)>>     \* a parenthesised group with a single entry
                   [] k = "octal"     -> <<N("O", i)>>      \* a legacy octal literal (gofumpt spells it 0o... from go 1.13 on)
+                  [] k = "rawsplit"  -> <<N("R", i)>>      \* a raw string literal assembled by three Render calls
+                  [] k = "retsplit"  -> <<N("Z", i)>>      \* `return` and its operand come from two Render calls
                   [] k = "oddcomment" -> <<N("L", i)>>     \* a comment in a place where go/printer needs a second pass to settle
-    IN IF noise = "two_on_one" THEN base \o <<N("X", i)>> ELSE base
+    IN IF noise = "two_on_one" /\ k \notin {"rawsplit", "retsplit"} THEN base \o <<N("X", i)>> ELSE base      \* (the split kinds carry no noise)
 
 VARIABLES frags, mode, module
 gvars == <<frags, mode, module>>
